@@ -14,7 +14,7 @@ import time
 from .. import core
 
 MIRI_DIR = os.path.join(core.ROOT, "miri")
-LITMUS = ["litmus_get", "litmus_tick", "litmus_restart"]
+LITMUS = ["litmus_get", "litmus_tick", "litmus_restart", "litmus_alloc"]
 
 
 def run_miri(ctx, seeds):
